@@ -13,6 +13,7 @@ the requested filters, conditions and assignments and the value bound to each pl
 of the clause that introduced it (IN: the list; token(): the key values; collection operations: the requested delta;
 clauses built from (previous, value): applying the rendered operations to ``previous`` must give ``value``).
 """
+import copy
 import datetime
 import decimal
 import uuid
@@ -605,6 +606,10 @@ class Driver(object):
                 continue
             cs = sp.by_attr[attr]
             lhs = ("col", cs.field)
+            if isinstance(value, QF):
+                exp_list.append((lhs, SYMBOL[op], ("func", value.name.lower(), value.ms)))
+                q = flush(q).filter(**{attr + "__" + op: getattr(self.F, value.name)(value.dt)})
+                continue
             if op == "in":
                 exp_list.append((lhs, "in", [cs.col.to_database(v) for v in value]))
             elif op == "contains":
@@ -661,6 +666,9 @@ class Driver(object):
                     filters.append((c.attr, "contains", gen_scalar(rng, c.kind[4:-1].split(",")[1])))
                 elif c.kind == "text" and rng.random() < 0.4:
                     filters.append((c.attr, "like", gen_scalar(rng, "text") + "%"))
+                elif c.kind == "uuid" and rng.random() < 0.6:
+                    dt = datetime.datetime(1970, 1, 1) + datetime.timedelta(seconds=rng.randint(0, 4 * 10 ** 9))
+                    filters.append((c.attr, rng.choice(["gt", "gte", "lt", "lte"]), QF(rng.choice(["MinTimeUUID", "MaxTimeUUID"]), dt)))
                 elif c.kind not in ("bool", "blob"):
                     filters.append((c.attr, rng.choice(["eq", "eq", "gt", "lte", "in"]), None))
                     a, op, _ = filters.pop()
@@ -720,19 +728,79 @@ class Driver(object):
         if not exp.sel_required:
             exp.sel_required, exp.sel_allowed = None, None
         mode = rng.random()
-        if mode < 0.6:
+        if mode < 0.45:
+            # the statement object: rendering and get_context() are repeatable
             stmt = q._select_query()
-            return [(str(stmt), stmt.get_context(), [exp])], "select"
-        n0 = len(self.seen)
-        if mode < 0.8:
-            list(q)
-        else:
-            exp.count = True
-            q.count()
-        got = self.seen[n0:]
-        if len(got) != 1:
+            obs = [(str(stmt), stmt.get_context(), [exp])]
+            for _ in range(rng.choice([0, 1, 1, 2])):
+                if rng.random() < 0.3:
+                    stmt.get_context_size()
+                obs.append((str(stmt), stmt.get_context(), [exp]))
+            return obs, "select"
+        # executed: the same query set more than once (count() then iterate, first(), get(), ...) and clones chained from an
+        # already executed query set; every statement that reaches the session is judged against the request
+        obs = []
+
+        def run_ops(qs, e):
+            ops = rng.choice([["iter"], ["count"], ["count", "iter"], ["iter", "count"], ["count", "first"], ["count", "get"],
+                              ["first", "iter"], ["count", "count"], ["iter", "iter"], ["count", "iter", "get"]])
+            for op in ops:
+                n0 = len(self.seen)
+                try:
+                    if op == "iter":
+                        list(qs)
+                    elif op == "count":
+                        qs.count()
+                    elif op == "first":
+                        qs.first()
+                    else:
+                        try:
+                            qs.get()
+                        except qs.model.DoesNotExist:
+                            pass
+                finally:
+                    got = self.seen[n0:]
+                for text, params in got:
+                    e2 = copy.copy(e)
+                    e2.count = op == "count"
+                    obs.append((text, params, [e2]))
+                if len(got) > 1:
+                    obs.append((got[1][0], got[1][1], []))      # one call, two statements
+            return ops
+        first_ops = run_ops(q, exp)
+        if not obs:
             return [("", {}, [exp])], "select"
-        return [(got[0][0], got[0][1], [exp])], "select-executed"
+        label = "select-executed" if len(first_ops) == 1 else "select-executed-again"
+        if rng.random() < 0.5:
+            # a clone chained from the executed query set
+            e2 = copy.copy(exp)
+            e2.where = list(exp.where)
+            r = rng.random()
+            if r < 0.35:
+                n = rng.choice([1, 7, 50, rng.randint(1, 10 ** 6)])
+                while n == (exp.limit or 0):
+                    n += 1
+                q2 = q.limit(n)
+                e2.limit = n
+            elif r < 0.5:
+                q2 = q.all()
+            elif r < 0.65:
+                q2 = q.allow_filtering()
+                e2.allow_filtering = True
+            else:
+                cands = [c for c in sp.data if c.kind in ("int", "bigint", "varint", "double", "decimal", "text")]
+                if cands:
+                    c = rng.choice(cands)
+                    op = rng.choice(["gt", "gte", "lt", "lte"])
+                    v = gen_value(rng, c)
+                    q2 = q.filter(**{c.attr + "__" + op: v}).allow_filtering()
+                    e2.where.append((("col", c.field), SYMBOL[op], c.col.to_database(v)))
+                    e2.allow_filtering = True
+                else:
+                    q2 = q.all()
+            run_ops(q2, e2)
+            label = "select-executed-clone"
+        return obs, label
 
     # ---- DML through the model API -------------------------------------------------------------------
     def options(self, q, exp_list, allow, is_class=False):
@@ -1283,7 +1351,12 @@ class Driver(object):
             if base is not None and rng.random() < 0.5:
                 base = rng.randint(0, 50)
                 st.update_context_id(base)
-        return [(str(st), st.get_context(), [exp])], "direct-" + kind
+        obs = [(str(st), st.get_context(), [exp])]
+        if rng.random() < 0.5:
+            if rng.random() < 0.5:
+                st.get_context_size()
+            obs.append((str(st), st.get_context(), [exp]))       # rendering and get_context() are repeatable
+        return obs, "direct-" + kind
 
 
 def ops_expected(sem):
@@ -1325,6 +1398,17 @@ def derive(rng, cs, value):
         elif r < 0.5:
             v[k] = gen_scalar(rng, cs.kind[4:-1].split(",")[1])
     return v
+
+
+class QF(object):
+    """a timeuuid query function used as a filter value: MinTimeUUID(dt) / MaxTimeUUID(dt) with a whole-second datetime"""
+    def __init__(self, name, dt):
+        self.name, self.dt = name, dt
+        d = dt - datetime.datetime(1970, 1, 1)
+        self.ms = (d.days * 86400 + d.seconds) * 1000
+
+    def __repr__(self):
+        return "%s(%r)" % (self.name, self.dt)
 
 
 SYMBOL = {"eq": "=", "gt": ">", "gte": ">=", "lt": "<", "lte": "<=", "ne": "!=", "in": "in", "contains": "contains", "like": "like"}
@@ -1498,4 +1582,5 @@ def run(ctx):
     ctx.floor_counters = {"statements_judged": 8000, "placeholder_context_bijections": 6000, "where_parts_equal_to_request": 6000,
                           "set_parts_equal_to_request": 1500, "if_parts_equal_to_request": 1500, "clause_values_compared": 20000,
                           "batched_statements_judged": 1500, "container_deltas_judged_by_effect": 300, "cases:select": 1500,
-                          "statements_intercepted_at_session_execute": 3000, "delete_selections_equal_to_request": 1000, "cases:inst_update": 800}
+                          "statements_intercepted_at_session_execute": 3000, "delete_selections_equal_to_request": 1000, "cases:inst_update": 800, "cases:select-executed-again": 300,
+                          "cases:select-executed-clone": 300}
